@@ -59,7 +59,7 @@ def observe():
 
 def replay(hist):
     reset()
-    stack, steps = [], []
+    stack, steps, pending = [], [], []
     for op in hist:
         exc = ""
         try:
@@ -71,8 +71,10 @@ def replay(hist):
                 fickling.activate_safe_ml_environment(also_allow=ADD)
             elif op == "remove":
                 hook.remove_hook()
+            elif op == "new":            # the manager is constructed now and entered by a later "enter"
+                pending.append(fickling.check_safety())
             elif op == "enter":
-                cm = fickling.check_safety()
+                cm = pending.pop(0) if pending else fickling.check_safety()
                 cm.__enter__()
                 stack.append(cm)
             elif op == "exit":
